@@ -62,6 +62,8 @@ contract("usim._primitives.flag.Flag.__init__",
 
 contract("usim._primitives.flag.Flag.set",
          params={"self": REF("Flag"), "to": BOOL},
+         # Connective: Inv_cond1 for a & b / a | b is part of this function's duty as well -- it is NOT met (finding D3)
+         inv_scope=NS + ["Condition", "Flag", "InverseFlag", "Connective"],
          requires=["loop.activity is me"],
          suspends=(1, None),
          # the new value is in force, and everybody it makes runnable is scheduled, before the setter yields (C08)
@@ -69,7 +71,7 @@ contract("usim._primitives.flag.Flag.set",
          ensures=["loop.activity is me"],
          on_signal=["loop.activity is me"], on_close=[],
          on_exit=["forall_new(Interrupt, lambda i: i.sub is None and (i._revoked or not i.scheduled))"],
-         props=["C08", "C20"])
+         props=["C08", "C20", "C07"])
 
 contract("usim._primitives.flag.InverseFlag.set",
          params={"self": REF("InverseFlag"), "to": BOOL},
@@ -84,6 +86,12 @@ contract("usim._primitives.flag.InverseFlag.set",
 model("Connective", module="usim._primitives.condition", fields={"_children": LIST(REF("Condition"))}, final=["_children"])
 model("All", module="usim._primitives.condition", fields={})
 model("Any", module="usim._primitives.condition", fields={})
+
+# Inv_cond1 for connectives (C08 "never missed, however deeply nested"; C07 for until(a | b)): nobody stays parked on a
+# connective that evaluates true.  Waiters get parked on a connective by until(connective) and by an enclosing
+# connective (Condition.__subscribe__); nothing ever triggers a connective's own waiter list, so the functions that can
+# turn a connective true (Flag.set, ...) cannot re-establish this invariant: known finding D3, see known_findings.json.
+invariant("Connective", "no_waiter_when_true", "implies(bool(self), len(self._waiting) == 0)", props=["C08", "C07"])
 
 # contextlib.ExitStack, used by Connective.__await_children__ to hold one subscription per child that is not true yet.
 # ASSUMED interface (the stack and the subscriptions it enters are not modelled object by object):
